@@ -973,7 +973,28 @@ def _sym_minmax(is_max):
     return fn
 
 
+def _binary_lifted(name):
+    def one(a, b):
+        if not isinstance(a, SymReal) and not isinstance(b, SymReal):
+            return getattr(np, name)(a, b)
+        a = a if isinstance(a, SymReal) else SymReal.const(a)
+        return getattr(a, name)(b)
+
+    def fn(a, b, **kw):
+        if isinstance(a, np.ndarray) or isinstance(b, np.ndarray):
+            ab, bb = np.broadcast_arrays(np.asarray(a, dtype=object), np.asarray(b, dtype=object))
+            out = np.empty(ab.shape, dtype=object)
+            for idx in np.ndindex(*ab.shape):
+                out[idx] = one(ab[idx], bb[idx])
+            return out
+        return one(a, b)
+
+    return fn
+
+
 _UFUNC_SPECIAL = {
+    "hypot": _binary_lifted("hypot"),
+    "arctan2": _binary_lifted("arctan2"),
     "isfinite": _elementwise(_isfinite),
     "isnan": _elementwise(_isnan),
     "isinf": _elementwise(lambda x: False if isinstance(x, (SymReal, SymComplex)) else bool(np.isinf(x))),
